@@ -399,6 +399,11 @@ void op_minify(toks *t)
     unsigned char *first = NULL;
     if (t->n < 3) cjv_fatal("minify bytes valid");
     b = tk_bytes(t->tok[1], &n);
+    if (b == NULL) {     /* "~": a NULL string is documented as a no-op */
+        LIB_BEGIN("cJSON_Minify"); cJSON_Minify(NULL); LIB_END();
+        rlog("minify null");
+        return;
+    }
     valid = (int)tk_int(t->tok[2]);
     n = strlen((char *)b);
     for (placement = 0; placement < nplace; placement++) {
